@@ -216,6 +216,7 @@ structure EAt where
   rxM : Bool
   embed : Nat
   table : Bool
+  foreign : Bool
 
 def lookupE (l : List EAt) (i : Nat) : Option EAt := l.find? (fun e => e.id == i)
 
@@ -230,13 +231,14 @@ def atomsOf (es : List EAt) (ts : List (Nat × Bool × Nat)) : CAtoms :=
       | none => .none,
     dataTable := fun i => match lookupE es i with | some e => e.table | none => false,
     blank := fun i => match ts.find? (fun t => t.1 == i) with | some t => t.2.1 | none => false,
-    words := fun i => match ts.find? (fun t => t.1 == i) with | some t => t.2.2 | none => 0 }
+    words := fun i => match ts.find? (fun t => t.1 == i) with | some t => t.2.2 | none => 0,
+    foreignRaw := fun i => match lookupE es i with | some e => e.foreign | none => false }
 
 def atomsP : P CAtoms := do
   let ne ← nat
   let es ← many ne (do
-    let i ← nat; let d ← str; let v ← bool; let b ← bool; let u ← bool; let m ← bool; let e ← nat; let t ← bool
-    pure ({ id := i, disp := d, vis := v, byline := b, rxU := u, rxM := m, embed := e, table := t } : EAt))
+    let i ← nat; let d ← str; let v ← bool; let b ← bool; let u ← bool; let m ← bool; let e ← nat; let t ← bool; let f ← bool
+    pure ({ id := i, disp := d, vis := v, byline := b, rxU := u, rxM := m, embed := e, table := t, foreign := f } : EAt))
   let nt ← nat
   let ts ← many nt (do let i ← nat; let b ← bool; let w ← nat; pure (i, b, w))
   pure (atomsOf es ts)
@@ -491,7 +493,7 @@ def mediarenderSlice : P String := do
     | some c => pure s!"H={optHex (figureOutput A abs absSet false el c)} T={optHex (figureOutput A abs absSet true el c)} U={urlsStr (imageURLs abs absSet setURLs el)}"
     | none => pure "error figure-without-caption"
   | 5 => pure s!"H={hex (String.ofList (videoOutput abs absSet false el))} T={hex (String.ofList (videoOutput abs absSet true el))} U="
-  | 6 => pure s!"H={hex (String.ofList (embedOutput false type id el))} T={hex (String.ofList (embedOutput true type id el))} U="
+  | 6 => pure s!"H={hex (String.ofList (embedOutput A false type id el))} T={hex (String.ofList (embedOutput A true type id el))} U="
   | 7 => pure s!"H={optHex (tableOutput A abs absSet false el)} T={optHex (tableOutput A abs absSet true el)} U={urlsStr (tableImageURLs A abs absSet setURLs el)}"
   | _ => pure "error unknown-kind"
 
